@@ -28,9 +28,22 @@ def runDump : St → List Op → List Str
   | _, [] => []
   | s, op :: ops => let s' := step s op; dump s' :: runDump s' ops
 
+/-- `X` / `K`: leave (saving / without saving) and start the next session with `HISTTIMEFORMAT` already set when
+the shell is constructed — for the model the same as starting it and switching timestamps on at once (loading
+the file does not depend on the setting); one dump for the pair. -/
+def parseOps (t : Str) : Option (List Op) :=
+  match t with
+  | ['X'] => some [.exitNew, .toggleTs]
+  | ['K'] => some [.killNew, .toggleTs]
+  | _ => (parseOp t).map fun o => [o]
+
+def runGroups : St → List (List Op) → List Str
+  | _, [] => []
+  | s, g :: gs => let s' := g.foldl step s; dump s' :: runGroups s' gs
+
 def handle (toks : List Str) : Str :=
-  match toks.mapM parseOp with
+  match toks.mapM parseOps with
   | none => "bad-op".toList
-  | some ops => joinWith " | ".toList (runDump init ops)
+  | some gs => joinWith " | ".toList (runGroups init gs)
 
 end BrushVerif.Drv.C20
